@@ -28,7 +28,9 @@ Templates(x) ==
    K \o <<32, 61, 32, 91, 91>> \o x \o <<93, 44, 32, 91, 93, 44, 32, 123, 32, 113, 32, 61, 32>> \o x \o <<32, 125, 93, 10>>,
    K \o <<32, 61, 32, 123, 32, 113, 32, 61, 32>> \o x \o <<44, 32, 114, 46, 115, 32, 61, 32>> \o x \o <<32, 125, 10>>,
    <<97, 46, 98, 32, 61, 32>> \o x \o <<10, 97, 46, 99, 32, 61, 32>> \o x \o <<10>>,
-   <<34, 97, 32, 98, 34, 32, 61, 32>> \o x \o <<10, 34, 97, 32, 98, 50, 34, 46, 99, 32, 61, 32>> \o x \o <<10>>}
+   <<34, 97, 32, 98, 34, 32, 61, 32>> \o x \o <<10, 34, 97, 32, 98, 50, 34, 46, 99, 32, 61, 32>> \o x \o <<10>>,
+   \* quoted keys that begin with dashes (the macro joins key segments with dashes internally)
+   <<34, 45, 120, 34, 32, 61, 32>> \o x \o <<10, 120, 32, 61, 32>> \o x \o <<10, 91, 116, 46, 34, 45, 45, 118, 34, 93, 10, 107, 32, 61, 32>> \o x \o <<10, 91, 91, 34, 45, 34, 93, 93, 10, 107, 32, 61, 32>> \o x \o <<10>>}
 \* every date-time spelling the macro has rules for: "T", "t" or a space, "Z" or "z", fractions (no "+" offsets)
 \* numbers: also with an explicit "+" (a separate Rust token, with macro rules of its own in every position)
 MacroSpellings(v) == IF v.k = "dt" THEN DatetimeSpellings(v)
